@@ -9,14 +9,15 @@ from vt import common
 
 NETWORKS = {
     # two end points with separate LANs, members in each LAN
-    "two-lans": {"vm1": {"b1": "10.1.0.1", "b2": "172.17.0.1"}, "vm2": {"b1": "10.1.0.2", "b2": "172.18.0.1"},
-                 "vm3": {"b1": "10.1.0.3", "b2": "172.17.0.3"}, "vm4": {"b1": "10.1.0.4", "b2": "172.18.0.4"}},
+    "two-lans": {"vm1": {"b1": "10.1.0.1", "b2": "172.17.0.1", "b4": "192.168.1.1"}, "vm2": {"b1": "10.1.0.2", "b2": "172.18.0.1", "b4": "192.168.1.2"},
+                 "vm3": {"b1": "10.1.0.3", "b2": "172.17.0.3", "b4": "192.168.1.3"}, "vm4": {"b1": "10.1.0.4", "b2": "172.18.0.4", "b4": "192.168.1.4"}},
     # a multi-homed host present in both LANs
-    "multi-homed": {"vm1": {"b1": "10.1.0.1", "b2": "172.17.0.1"}, "vm2": {"b1": "10.1.0.2", "b2": "172.18.0.1"},
-                    "vm3": {"b1": "10.1.0.3", "b2": "172.17.0.3", "b3": "172.18.0.3"}, "vm4": {"b1": "10.1.0.4", "b2": "172.17.0.4"}},
+    "multi-homed": {"vm1": {"b1": "10.1.0.1", "b2": "172.17.0.1", "b4": "192.168.1.1"}, "vm2": {"b1": "10.1.0.2", "b2": "172.18.0.1", "b4": "192.168.1.2"},
+                    "vm3": {"b1": "10.1.0.3", "b2": "172.17.0.3", "b3": "172.18.0.3", "b4": "192.168.1.3"},
+                    "vm4": {"b1": "10.1.0.4", "b2": "172.17.0.4", "b4": "192.168.1.4"}},
     # end points sharing one LAN
-    "shared-lan": {"vm1": {"b1": "10.1.0.1", "b2": "172.17.0.1"}, "vm2": {"b1": "10.1.0.2", "b2": "172.17.0.2"},
-                   "vm3": {"b1": "10.1.0.3", "b2": "172.19.0.3"}},
+    "shared-lan": {"vm1": {"b1": "10.1.0.1", "b2": "172.17.0.1", "b4": "192.168.1.1"}, "vm2": {"b1": "10.1.0.2", "b2": "172.17.0.2", "b4": "192.168.1.2"},
+                   "vm3": {"b1": "10.1.0.3", "b2": "172.19.0.3", "b4": "192.168.1.3"}},
 }
 
 LOCALS = [{"type": "nic", "nic": "lan_nic"}, {"type": "internetip"},
@@ -25,7 +26,9 @@ LOCALS = [{"type": "nic", "nic": "lan_nic"}, {"type": "internetip"},
           {"type": "bogus", "nic": "lan_nic"}]
 REMOTES = [{"type": "custom", "nic": "lan_nic"}, {"type": "externalip", "nic": "lan_nic"},
            {"type": "modeconfig", "modeconfig_ip": "172.30.0.1", "nic": "lan_nic"}, {"type": "bogus", "nic": "lan_nic"}]
-PEERS = [{"type": "ip", "nic": "internet_nic"}, {"type": "dynip", "nic": "internet_nic"}, {"type": "bogus", "nic": "internet_nic"}]
+# the peering nic role is a parameter of its own: the default role and a second one mapped to another interface
+PEERS = [{"type": "ip", "nic": "internet_nic"}, {"type": "dynip", "nic": "internet_nic"}, {"type": "bogus", "nic": "internet_nic"},
+         {"type": "ip", "nic": "wan_nic"}, {"type": "dynip", "nic": "wan_nic"}]
 AUTHS = [None, {"type": "pubkey"}] + [{"type": "psk", "psk": "k", "left_id": l, "right_id": r} for l in ("", "L") for r in ("", "R")] + [{"type": "bogus"}]
 
 RIGHT_REMOTE = {"nic": "CUSTOM", "internetip": "EXTERNALIP", "custom": "CUSTOM"}
@@ -37,9 +40,10 @@ def build(cfg):
 
     rp = utils_params.Params()
     rp["vms"] = " ".join(cfg)
-    rp["nic_roles"] = "internet_nic lan_nic"
+    rp["nic_roles"] = "internet_nic lan_nic wan_nic"
     rp["internet_nic"] = "b1"
     rp["lan_nic"] = "b2"
+    rp["wan_nic"] = "b4"
     rp["mac"] = "00:00:00:00:00:00"
     for vm, nics in cfg.items():
         rp[f"nics_{vm}"] = " ".join(nics)
@@ -124,9 +128,11 @@ def run(tier: str, seed: int) -> int:
                 chk(R.get("vpnconn_lan_net") == l["rnet"] and L.get("vpnconn_remote_net") == l["rnet"], "custom right net not mirrored")
                 chk(L.get("vpnconn_lan_net") == l["lnet"], "custom left net")
             # peer addresses point at each other
-            chk(R["vpnconn_peer_ip"] == node1.interfaces[node1.params["internet_nic"]].ip, "right peer ip is not the left end point's address")
+            chk(R["vpnconn_peer_ip"] == node1.interfaces[node1.params[p["nic"]]].ip,
+                f"right peer ip {R['vpnconn_peer_ip']} is not the left end point's address on the peering nic {p['nic']}")
             if p["type"] == "ip":
-                chk(L["vpnconn_peer_ip"] == node2.interfaces[node2.params["internet_nic"]].ip, "left peer ip is not the right end point's address")
+                chk(L["vpnconn_peer_ip"] == node2.interfaces[node2.params[p["nic"]]].ip,
+                    f"left peer ip {L['vpnconn_peer_ip']} is not the right end point's address on the peering nic {p['nic']}")
             # pre-shared-key identities are swapped
             if a and a["type"] == "psk":
                 chk(L["vpnconn_psk_own_id"] == a["left_id"] and R["vpnconn_psk_own_id"] == a["right_id"], "psk own ids")
@@ -149,7 +155,7 @@ def run(tier: str, seed: int) -> int:
                     chk(False, f"connects_nodes raised {type(e).__name__}: {e}")
             # the end points themselves are connected
             chk(t.connects_nodes(node1, node2), "end points not connected")
-            rep.distinct.add((net_name, n1, n2) + types + ((a or {}).get("left_id"), (a or {}).get("right_id")))
+            rep.distinct.add((net_name, n1, n2) + types + (p["nic"], (a or {}).get("left_id"), (a or {}).get("right_id")))
             if why:
                 rep.violation(f"{net_name} {n1}->{n2} {types}: {why[0]}", dict(inp, problems=why[:5]),
                               {"kind": "mirror", "what": why[0].split(":")[0][:50] if "connects_nodes" not in why[0] else "connects_nodes asymmetric"})
